@@ -27,7 +27,7 @@ def specs_for(ctx):
             shifts = {str(c): rng.randrange(6) for c in range(nc)}
             specs.append(mk(rng, {"kind": "catalogue", "base": base, "sagitta": rng.choice([None, 0.15]), "tseed": 5}, 10.0,
                             flips, shifts, k=rng.choice([0, 1, 3]), exhaustive=True))
-    for i in range(ctx.pick(30, 2000)):
+    for i in range(ctx.pick(30, 800)):
         tissue = {"kind": "equilibrium", "ncells": rng.choice([6, 12, 20] if ctx.quick else [6, 12, 20, 40]),
                   "mobius": rng.choice([0.0, 0.6, 1.3]), "noise": rng.choice([0, 0.1, 0.5])}
         nc = 80
